@@ -91,10 +91,46 @@ def settle : Nat → Sys → Option Task → List Task → List Label → Sys ×
           | none => (s, acc.reverse)
         | [] => (s, acc.reverse)
 
+theorem run_snoc (s0 s s' : Sys) (acc : List Label) (l : Label)
+    (h : run? s0 acc.reverse = some s) (hs : step? s l = some s') :
+    run? s0 (l :: acc).reverse = some s' := by
+  have : ∀ (ls : List Label) (a b : Sys), run? a ls = some b → run? a (ls ++ [l]) = (step? b l) := by
+    intro ls
+    induction ls with
+    | nil => intro a b h; simp [run?] at h; subst h; simp [run?]; cases step? a l <;> rfl
+    | cons x xs ih =>
+      intro a b h
+      simp only [List.cons_append, run?] at h ⊢
+      split at h
+      · cases h
+      · rename_i a1 ha1; exact ih a1 b h
+  rw [List.reverse_cons, this _ _ _ h, hs]
+
 theorem settle_is_run (n : Nat) (s : Sys) (cur : Option Task) (q : List Task) (acc : List Label)
     (s0 : Sys) (h : run? s0 acc.reverse = some s) :
     run? s0 (settle n s cur q acc).2 = some (settle n s cur q acc).1 := by
-  sorry
+  induction n generalizing s cur q acc with
+  | zero => simpa [settle] using h
+  | succ n ih =>
+    simp only [settle]
+    split
+    · -- the current task continues
+      split
+      · exact h
+      · rename_i s' hs; exact ih _ _ _ _ (run_snoc s0 s s' acc _ h hs)
+    · split
+      · split
+        · split
+          · exact h
+          · rename_i s' hs; exact ih _ _ _ _ (run_snoc s0 s s' acc _ h hs)
+        · exact ih _ _ _ _ h
+      · split
+        · split
+          · split
+            · exact h
+            · rename_i s' hs; exact ih _ _ _ _ (run_snoc s0 s s' acc _ h hs)
+          · exact h
+        · exact h
 
 def fuel : Nat := 100000
 
